@@ -196,9 +196,17 @@ class Buffer:
 
     #   skip space and comments (but not paragraphs)
     #
-    def skip_space(self):
+    #   - language tokens count as space, but must not get lost:
+    #     stop at them (stop_lang), or collect them in list langs
+    #
+    def skip_space(self, langs=None, stop_lang=False):
         tok = self.cur()
         while self.is_space(tok):
+            if type(tok) is defs.LanguageToken:
+                if stop_lang:
+                    break
+                if langs is not None:
+                    langs.append(tok)
             tok = self.next()
         return tok
 
